@@ -1,5 +1,6 @@
-(* Correspondence runner for C03 on the Relay model. *)
-From Turn Require Export RelayCheck.
+(* Correspondence runner for C03 on the Relay model: agreement of model and implementation step by
+   step, and the property predicate chk_C03 evaluated on the implementation's observed trace. *)
+From Turn Require Export RelayProps.
 Definition case := rcase.
-Definition chk (c : rcase) : bool := true.
+Definition chk := chk_C03.
 Definition bad_cases (base : N) (cs : list case) := bad_from (run_with chk) base cs.
